@@ -75,3 +75,13 @@ def basickey(value):
     if not ok:
         raise ValueError("not a basic key: %r" % (value,))
     return v.lower()
+
+
+def picky(value):
+    """Section datatype that refuses a section holding the string REJECTME (a fault at the
+    section-datatype stage that a text can switch on)."""
+    for a in value.getSectionAttributes():
+        v = getattr(value, a)
+        if v == "REJECTME" or (isinstance(v, list) and "REJECTME" in v):
+            raise ValueError("picky section datatype refuses this section")
+    return Wrapped(value)
